@@ -247,7 +247,8 @@ def openStep (cfg : PartCfg) (s : DC) (x : Xml) (inCell : Bool) (roots : List (L
   | some "COMMENT_RANGE_START" => withFalse ((x.attrReq (lit "w") (lit "id")) >>= fun id => s.startRange id)
   | some "TEXT" => withTrue (s.addText cfg.html (x.text?.getD []))
   | some "TEXT_MATH" => withTrue (s.addText cfg.html (x.text?.getD []))
-  | some "MATH" => withFalse (s.insertNewRun cfg.html (lit "<latex>" ++ x.itertext ++ lit "</latex>"))
+  | some "MATH" => withFalse (s.insertNewRun cfg.html
+      (lit "<latex>" ++ (if cfg.html then escapeHtml x.itertext else x.itertext) ++ lit "</latex>"))
   | some "BR" => withTrue (s.addCode cfg.html ['\n'])
   | some "SYM" => withTrue ((symCode x) >>= fun c => match c with | some c => s.addCode cfg.html c | none => pure s)
   | some "FOOTNOTE" => withTrue (noteLabel s x "footnote")
